@@ -88,6 +88,9 @@ def dfs_programs():
     P.append(dict(rcap=2, caps=[1, 2], prods=[[["b", [100, 101]]], [["s", 200]]], cons=[[["p"], ["p"], ["p"]]], max_preempt=2, max_cancel=0))
     # a batch whose later item sees the 0 -> 1 transition (the queue was drained in between)
     P.append(dict(rcap=1, caps=[2], prods=[[["t", 100], ["b", [101, 102]]]], cons=[[["p"], ["p"], ["p"]]], max_preempt=3, max_cancel=0))
+    # a non-blocking enqueue into a pipe that already holds one message, against two pops (index 10)
+    P.append(dict(rcap=1, caps=[2], prods=[[["t", 100], ["t", 101]]], cons=[[["p"], ["p"]]], max_preempt=3, max_cancel=0))
+    P.append(dict(rcap=1, caps=[2], prods=[[["s", 100], ["t", 101]]], cons=[[["q"], ["p"], ["p"]]], max_preempt=3, max_cancel=0))
     out = []
     for p in P:
         d = dict(p)
@@ -425,6 +428,8 @@ def main(argv):
         gens.append(dict(dfs_programs()[0], max_runs=300))
         gens.append(dict(dfs_programs()[1], max_runs=300))
         gens.append(dict(dfs_programs()[6], max_runs=200))
+        gens.append(dict(dfs_programs()[10], max_runs=600))
+        gens.append(dict(dfs_programs()[11], max_runs=300))
     cases = C.load_corpus(PROP, "cases")
     cases += schedules_from(res, gens, "gen")
     cases += [gen_wg(rng) for _ in range(n_wg)]
